@@ -1662,3 +1662,119 @@ func ruleBackEndsDoNotDeduplicateInstantiationsByName(c *core.Ctx) {
 		c.Undecided(rule, "anchor/walks", 0, "no back-end function follows SimpleType.ResolvedDefinition")
 	}
 }
+
+func init() {
+	reg("C11", ruleDuplicateDefinitionsAlwaysReported)
+	reg("C09", ruleDuplicateDefinitionsAlwaysReported)
+}
+
+// ---------------------------------------------------------------------------------------------------------------
+// ST2: a name that is already in the symbol table is an error, whatever the two definitions look like. In
+// `if other, exists := table[name]; exists { … }` over a dsl.SymbolTable the exists-branch reaches ErrorSink.Add on
+// every path: no path leaves it (return, an if without the report) silently. Two identical copies of a definition
+// (a record pasted into a second model file) are two definitions: both stay in TypeDefinitions and are both emitted
+// (`struct Timestamp` twice).
+// ---------------------------------------------------------------------------------------------------------------
+func ruleDuplicateDefinitionsAlwaysReported(c *core.Ctx) {
+	const rule = "ST2"
+	c.Rule(rule, "pkg/dsl: in `if other, exists := <SymbolTable>[name]; exists {…}` every path through the exists-branch reports to the ErrorSink", 1)
+	p := c.Pkg("pkg/dsl")
+	if p == nil {
+		c.Undecided(rule, "anchor/pkg/dsl", 0, "package not found")
+		return
+	}
+	info := p.TypesInfo
+	isAdd := func(s ast.Stmt) bool {
+		es, ok := s.(*ast.ExprStmt)
+		if !ok {
+			return false
+		}
+		ce, ok := es.X.(*ast.CallExpr)
+		if !ok {
+			return false
+		}
+		fn, _ := typeutil.Callee(info, ce).(*types.Func)
+		return fn != nil && fn.Name() == "Add" && fn.Pkg() != nil && strings.HasSuffix(fn.Pkg().Path(), "/validation")
+	}
+	var always func(list []ast.Stmt) bool
+	always = func(list []ast.Stmt) bool {
+		for _, s := range list {
+			if isAdd(s) {
+				return true
+			}
+			switch x := s.(type) {
+			case *ast.ReturnStmt, *ast.BranchStmt:
+				return false
+			case *ast.IfStmt:
+				thenOK := always(x.Body.List)
+				elseOK := false
+				if eb, ok := x.Else.(*ast.BlockStmt); ok {
+					elseOK = always(eb.List)
+				}
+				if thenOK && elseOK {
+					return true
+				}
+				if !thenOK && bodyLeaves(x.Body) {
+					return false
+				}
+			case *ast.BlockStmt:
+				if always(x.List) {
+					return true
+				}
+			}
+		}
+		return false
+	}
+	n := 0
+	for _, d := range c.AllDecls() {
+		if c.DeclPkg(d) != p || d.Body == nil || c.IsTestFile(d.Pos()) {
+			continue
+		}
+		ast.Inspect(d.Body, func(m ast.Node) bool {
+			is, ok := m.(*ast.IfStmt)
+			if !ok || is.Init == nil {
+				return true
+			}
+			as, ok := is.Init.(*ast.AssignStmt)
+			if !ok || len(as.Lhs) != 2 || len(as.Rhs) != 1 {
+				return true
+			}
+			ix, ok := ast.Unparen(as.Rhs[0]).(*ast.IndexExpr)
+			if !ok {
+				return true
+			}
+			nt := core.NamedOf(derefType(info.TypeOf(ix.X)))
+			if nt == nil || nt.Obj().Name() != "SymbolTable" {
+				return true
+			}
+			okID, isID := as.Lhs[1].(*ast.Ident)
+			cond, isCond := ast.Unparen(is.Cond).(*ast.Ident)
+			if !isID || !isCond || info.ObjectOf(okID) != info.ObjectOf(cond) {
+				return true
+			}
+			// only the build of the table: the else branch (or what follows) stores under the same key
+			stores := false
+			ast.Inspect(d.Body, func(k ast.Node) bool {
+				if a2, ok := k.(*ast.AssignStmt); ok && a2.Tok == token.ASSIGN {
+					for _, l := range a2.Lhs {
+						// outside the exists-branch: an update of an existing entry (the rewriter's updateSymbolTable) is not a build
+						if i2, ok := l.(*ast.IndexExpr); ok && types.ExprString(i2.Index) == types.ExprString(ix.Index) && !(is.Body.Pos() <= a2.Pos() && a2.End() <= is.Body.End()) {
+							stores = true
+						}
+					}
+				}
+				return true
+			})
+			if !stores {
+				return true
+			}
+			n++
+			c.Check(always(is.Body.List), rule, c.FuncName(d)+"/name already defined", is.Pos(), "every path through the exists-branch reports the duplicate",
+				"a path through the branch for a name that is already in the symbol table leaves without reporting it: such a duplicate definition is accepted — both copies stay among the type definitions and are both generated (exit 0, files written)")
+			return true
+		})
+	}
+	if n == 0 {
+		c.Undecided(rule, "anchor/duplicate test", 0, "no `if other, exists := <SymbolTable>[name]; exists` in front of a store under the same key found")
+	}
+}
